@@ -191,7 +191,7 @@ def gen_relay(work, tier, seed):
     nodes, roots, edges = parse_dot(dot)
     adj = {}
     for s, d, act, args in edges:
-        if act in ("ClientData", "HostData"):
+        if act in ("ClientData", "HostData", "ClientClose"):
             adj.setdefault(s, []).append((d, act, args))
     # all environment action sequences (paths over ClientData / HostData edges; relay steps are the gateway's)
     seqs = set()
@@ -229,6 +229,10 @@ def gen_relay(work, tier, seed):
                         acts.append({"a": "cs", "decl": min(d, 65535), "carr": min(c, 65530)})
                     else:
                         acts.append({"a": "cs", "decl": c, "carr": min(c + rng.choice([1, 2, 50]), 65535)})
+                elif act == "ClientClose":
+                    # the orderly end: a last data packet and CLOSE_CHANNEL, in one transport write or back to back
+                    acts.append({"a": "burstclose", "sizes": [rng.choice([1, 9, 100, 700])], "apart": len(scripts) % 2 == 0})
+                    break
                 else:
                     acts.append({"a": "bs", "n": rng.choice(SIZES + [12000, 30000] if tier == "quick" else SIZES + [12000, 100000, 1 << 20])})
             steps = session(token)[:4]
@@ -244,6 +248,16 @@ def gen_relay(work, tier, seed):
             acts = [{"a": "cs", "decl": 50, "carr": 50}, {"a": "burst", "sizes": sizes}, {"a": "bs", "n": 200}, {"a": "burst", "sizes": sizes[::-1]}, {"a": "cs", "decl": 7, "carr": 7}]
             token = k % 2 == 0
             scripts.append({"id": "y%05d" % len(scripts), "origin": "burst:%d" % nb, "cfg": base_cfg(token), "transport": tr,
+                            "tun": dict(H_A, user="user1" if token else "nuser1"), "steps": session(token)[:4], "actions": acts})
+    # data packets and the CLOSE_CHANNEL that ends the channel in one transport write (and back to back): everything sent
+    # before the close reaches the host
+    for tr in ("ws", "legacy"):
+        for k in range(6 if tier == "quick" else 40):
+            nb = [1, 2, 3, 5, 8, 12][k % 6]
+            sizes = [rng.choice([1, 2, 9, 100, 300, 700]) for _ in range(nb)]
+            token = k % 2 == 1
+            acts = [{"a": "cs", "decl": 50, "carr": 50}, {"a": "bs", "n": 200}, {"a": "burstclose", "sizes": sizes, "apart": k % 3 == 2}]
+            scripts.append({"id": "y%05d" % len(scripts), "origin": "burstclose:%d" % nb, "cfg": base_cfg(token), "transport": tr,
                             "tun": dict(H_A, user="user1" if token else "nuser1"), "steps": session(token)[:4], "actions": acts})
     # size ladder: every size class alone in each direction
     for tr in ("ws", "legacy"):
@@ -274,7 +288,7 @@ def c06(work, tier, seed, replay=None):
     def sig(v, s):
         e = v["event"]
         if e.get("ev") == "c2b":
-            cls = "eq" if e["carr"] == e["decl"] else ("short" if e["carr"] < e["decl"] else "long")
+            cls = "closing" if e.get("closing") else ("eq" if e["carr"] == e["decl"] else ("short" if e["carr"] < e["decl"] else "long"))
             return "%s/c2b.%s/%s" % (v["guard"], cls, e.get("transport"))
         return "%s/b2c.%s/%s" % (v["guard"], e.get("sizecls"), e.get("transport"))
     out = family("C06", work, tier, seed, "relay", "RelayTrace", scripts, liv, sig,
